@@ -344,6 +344,52 @@ pub fn run(ctx: Ctx) -> ! {
         mc_core::report::machinery_failure(&format!("reference reader cannot view {} real blocks, e.g. {}", unreadable.len(), unreadable[0]));
     }
 
+    // ---- the same blocks with their wrapper spelled differently (valid, not minimal CBOR): a
+    // two-byte array head (98 02), a two-byte era tag (18 NN), both. The wrapper still declares
+    // the same era; a block that is accepted in the usual spelling has to be reported likewise.
+    let mut respelled = 0usize;
+    let respell_jobs: Vec<(String, Vec<u8>, &'static str)> = real
+        .iter()
+        .filter(|(a, r)| r.is_ok() && accepted_names.contains(&a.name) && !a.name.contains('#'))
+        .flat_map(|(a, _)| {
+            let b = &a.bytes;
+            let mut out = vec![];
+            if b.len() > 2 && b[0] == 0x82 && b[1] < 0x18 {
+                out.push((a.name.clone(), [&[0x98, 0x02][..], &b[1..]].concat(), "array head 98 02"));
+                out.push((a.name.clone(), [&[0x82, 0x18, b[1]][..], &b[2..]].concat(), "era tag 18 NN"));
+                out.push((a.name.clone(), [&[0x98, 0x02, 0x18, b[1]][..], &b[2..]].concat(), "array head 98 02 + era tag 18 NN"));
+            }
+            out
+        })
+        .collect();
+    let respell_out: Vec<_> = respell_jobs
+        .par_iter()
+        .map(|(name, bytes, how)| {
+            let rb = corpus::ref_block(bytes);
+            (name, bytes, how, rb.as_ref().ok().map(|rb| compare_block(bytes, rb)), rb.is_ok())
+        })
+        .collect();
+    for (name, bytes, how, o, ok) in respell_out {
+        evals += 1;
+        if !ok {
+            mc_core::report::machinery_failure(&format!("reference reader cannot view {name} with its wrapper respelled ({how})"));
+        }
+        let o = o.unwrap();
+        respelled += 1;
+        if let Some(e) = &o.rejected {
+            ctx.violation(
+                "era:not-reported-for-respelled-wrapper".to_string(),
+                format!("{name} is traversed in its usual spelling, but with the wrapper written as {how} (same era tag, valid CBOR) MultiEraBlock::decode fails: {e}"),
+                json!({"block": name, "wrapper": how, "head_hex": hex::encode(&bytes[..bytes.len().min(8)])}),
+            );
+            continue;
+        }
+        for p in &o.problems {
+            ctx.violation(p.fp.clone(), format!("{} [{} with wrapper {how}]", p.what, name), json!({"block": name, "wrapper": how}));
+        }
+        nontrivial.insert(format!("respelled:{name}:{how}"));
+    }
+
     // ---- generated variants: one block per era tag 2..7 with >= 3 txs
     let max_n = if ctx.thorough { 11 } else { 6 };
     if real_rejected.len() > 3 {
@@ -461,6 +507,7 @@ pub fn run(ctx: Ctx) -> ! {
     let cov = cov! {
         "evaluations" => evals,
         "distinct_nontrivial" => nontrivial.len(),
+        "blocks_with_respelled_wrapper" => respelled,
         "rule" => "evaluation = one block decoded by MultiEraBlock::decode and compared, transaction by transaction, with the refcbor view (era tag, count, blake2b of body i, witness-set bytes, aux bytes keyed i, metadata labels, is_valid vs invalid list); non-trivial = distinct real block, or distinct (era, invalid list, aux key set) variant, that pallas accepted and that was fully compared",
         "samples" => samples,
         "real_blocks_by_era" => per_era_json,
